@@ -242,13 +242,16 @@ def run(ctx):
     # the reference table keeps one donor per key; top_up_from_atoms refuses a
     # donor of another residue type.  If the key does not contain the residue
     # type, a point mutant that owns the key shadows the donors of the right type
-    refs = [n for n in walk_no_nested(tuc) if isinstance(n, ast.DictComp)]
-    key_has_type = bool(refs) and all(
-        any(isinstance(x, ast.Attribute) and x.attr == 'res_name' for x in ast.walk(r.key)) for r in refs)
+    donor_keys = [n.key for n in walk_no_nested(tuc) if isinstance(n, ast.DictComp)]
+    donor_keys += [c.args[0] for c in calls_in(tuc, nested=False) if last_attr(c) == 'setdefault' and c.args]
+    donor_keys += [n.slice for n in walk_no_nested(tuc) if isinstance(n, ast.Subscript)
+                   and isinstance(n.ctx, ast.Store)]
+    key_has_type = bool(donor_keys) and all(
+        any(isinstance(x, ast.Attribute) and x.attr == 'res_name' for x in ast.walk(k)) for k in donor_keys)
     ctx.ob('C08.R4', 'top-up:donor-key-includes-residue-type', key_has_type,
            'the table of donor atoms is keyed by atom label and residue type (key: %s), so a '
            'conformation lacking atoms is completed from a donor of its own residue type when one '
-           'exists' % [norm(r.key) for r in refs], mc, refs[0] if refs else tuc)
+           'exists' % [norm(k) for k in donor_keys], mc, donor_keys[0] if donor_keys else tuc)
     # add_atom and copy_atom are the two ways an atom enters a container: they
     # must keep the same container-level books (atoms, chains)
     aa_f = cc.func('ConformationContainer.add_atom')
